@@ -1,17 +1,31 @@
 // Package roundtrace (growth family): the miner's ROUND PROTOCOL as one composed machine, executed on a REAL
-// miner chain (harness/minerworld).  The node under test is miner m1 of a 4-miner magic block; the other miners
-// are simulated: their VRF shares, block proposals, verification tickets and notarizations are built from the
-// deterministic key ring / a real DKG and delivered to the real handlers of the node.
+// miner chain (harness/minerworld).  The node under test is miner m1 of a 4-miner magic block (VRF threshold
+// 3 of a real DKG, notarization threshold 3, two generators per round); the other miners are simulated: their
+// VRF shares, block proposals (generated with the real generateBlock under their identity and sent over the
+// wire), verification tickets and notarizations are built from the deterministic key ring / the real DKG and
+// handed to the node's REAL receipt handlers (miner/m_handler.go).  The harness plays the part of the node's
+// message / block-verify / notarization workers one step at a time (non-blocking reads of the node's own
+// queues, then the real Handle* / processVerifyBlock / notarizationProcess), the clock (HandleRoundTimeout)
+// and the sharders (LFB tickets); the real LFB-ticket, restart-event and finalization workers run as they do in
+// a node.  After every stimulus the harness waits for the node's goroutines to come to rest and records the
+// projection of the node's state (spec/Trace_RoundTrace.tla recomputes it from the model).
 package roundtrace
 
 import (
+	"context"
+	"fmt"
 	"math/rand"
+	"os"
 	"strings"
 
 	"0chain.net/chaincore/block"
+	"0chain.net/chaincore/chain"
+	"0chain.net/chaincore/node"
 	"0chain.net/chaincore/round"
 	tbls "0chain.net/chaincore/threshold/bls"
 	"0chain.net/core/memorystore"
+	"0chain.net/core/viper"
+	"0chain.net/miner"
 
 	"github.com/herumi/bls-go-binary/bls"
 
@@ -23,7 +37,13 @@ import (
 
 func init() { vc.Register("roundtrace", Run) }
 
-const nMiners = 4
+const (
+	nMiners     = 4
+	baseStep    = 64 // every trace runs in its own window of rounds: base = baseStep * trace id
+	restartMult = 2  // soft timeouts before a round restart (server_chain.round_timeouts.round_restart_mult)
+	tocCap      = 3  // server_chain.round_timeouts.timeout_cap
+	ahead       = 5  // server_chain.lfb_ticket.ahead
+)
 
 type realDKG struct {
 	t, n int
@@ -31,16 +51,24 @@ type realDKG struct {
 }
 
 type drv struct {
-	mw  *minerworld.MinerWorld
-	rc  *rec.Recorder
-	dkg *realDKG
-	a   vc.Args
+	mw    *minerworld.MinerWorld
+	mc    *miner.Chain
+	rc    *rec.Recorder
+	dkg   *realDKG
+	a     vc.Args
+	debug bool
+	bg    context.Context
+	t     *trace
 }
 
 func must(err error) {
 	if err != nil {
 		rec.Fatal("roundtrace: %v", err)
 	}
+}
+
+func dbg(format string, a ...interface{}) {
+	fmt.Fprintf(os.Stderr, "DBG "+format+"\n", a...)
 }
 
 func extra(s, key string) string {
@@ -57,8 +85,7 @@ func extra(s, key string) string {
 
 // makeDKG: a real DKG among the n miners of the magic block (one bls.DKG object per miner) built with the
 // library's SetDKG from deterministic polynomials (same construction as harness/drivers/crypto/vrf.go).
-func makeDKG(w *world.World, t, n int) *realDKG {
-	r := rand.New(rand.NewSource(20240917))
+func makeDKG(w *world.World, t, n int, r *rand.Rand) *realDKG {
 	detSec := func() bls.SecretKey {
 		var b [32]byte
 		r.Read(b[:])
@@ -92,26 +119,64 @@ func makeDKG(w *world.World, t, n int) *realDKG {
 	return x
 }
 
+func (d *drv) setSelf(i int) {
+	mw := d.mw
+	node.Self.Node = mw.MinerNodes[i]
+	must(node.Self.SetSignatureScheme(mw.Miners[i].Scheme))
+}
+
 func Run(a vc.Args) {
 	mw := minerworld.New(world.Options{Clients: 3, Miners: nMiners, Sharders: 1,
 		Overrides: map[string]interface{}{
-			"server_chain.block.min_block_size":                1,
-			"server_chain.block.generation.timeout":            15,
-			"server_chain.block.proposal.max_wait_time":        "1ms",
-			"server_chain.block.sharding.min_active_sharders":  0,
+			"server_chain.block.min_block_size":                  1,
+			"server_chain.block.generation.timeout":              15,
+			"server_chain.block.proposal.max_wait_time":          "1ms",
+			"server_chain.block.sharding.min_active_sharders":    0,
 			"server_chain.block.sharding.min_active_replicators": 0,
+			"server_chain.round_timeouts.round_restart_mult":     restartMult,
+			"server_chain.round_timeouts.timeout_cap":            tocCap,
+			"server_chain.lfb_ticket.ahead":                      ahead,
+			"server_chain.smart_contract.setting_update_period":  1,
+			"server_chain.block.finalization.timeout":            "30s",
 		}})
 	defer mw.Close()
+	viper.Set("server_chain.round_timeouts.timeout_cap", tocCap)
+	viper.Set("server_chain.lfb_ticket.ahead", ahead)
 	rc := rec.New(a.Out)
 	defer rc.Close()
-	d := &drv{mw: mw, rc: rc, a: a}
-	d.dkg = makeDKG(mw.World, mw.MagicBlock.T, nMiners)
-	must(mw.MC.SetDKG(d.dkg.dkgs[0], 0))
+	mc := mw.MC
+	d := &drv{mw: mw, mc: mc, rc: rc, a: a, debug: os.Getenv("VERIF_DEBUG") != ""}
+	if mc.RoundRestartMult() != restartMult || mc.GetNotarizationThresholdCount(nMiners) != 3 || mw.MagicBlock.T != 3 ||
+		mc.GetGeneratorsNumOfRound(1) != 2 {
+		rec.Fatal("configuration not applied: restart mult %d, notarization threshold %d, T %d, generators %d",
+			mc.RoundRestartMult(), mc.GetNotarizationThresholdCount(nMiners), mw.MagicBlock.T, mc.GetGeneratorsNumOfRound(1))
+	}
 	mw.Genesis.SetBlockNotarized()
 	round.SetupVRFShareEntity(memorystore.GetStorageProvider())
 	block.SetupBVTEntity()
-	if extra(a.Extra, "explore") != "" {
-		d.explore()
-		return
+	miner.SetNetworkRelayTime(5e6) // 5 ms: FinalizeRound's wait for a missing notarized block is 2 x this
+	chain.SetNetworkRelayTime(5e6)
+	mc.SetStarted()
+
+	// the node's long-running workers, as SetupWorkers starts them (the round / message / block-verify /
+	// notarization workers are played by the harness step by step)
+	bg, cancel := context.WithCancel(context.Background())
+	defer cancel()
+	d.bg = bg
+	go mc.StartLFBTicketWorker(bg, mw.Genesis)
+	go mc.RestartRoundEventWorker(bg)
+	go mc.FinalizeRoundWorker(bg)
+	go mc.FinalizedBlockWorker(bg, mc)
+	go mc.VerifOfflineBlockFetcher(bg)
+
+	id := 0
+	for i := 0; i < a.N; i++ {
+		id++
+		if a.Only != 0 && a.Only != id {
+			rc.TraceID = id
+			continue
+		}
+		rc.TraceID = id - 1
+		d.runTrace(id, vc.TraceRand(a.Seed, id))
 	}
 }
